@@ -22,6 +22,7 @@ type Family struct {
 	Name    string   `json:"name"`
 	Recipes []Recipe `json:"recipes"`
 	Tokens  []Tok    `json:"tokens"`
+	Attrs   map[string][]Attr `json:"attrs"` // attribute alphabet per element (MC_Attrs families)
 }
 
 func LoadFamily(path string) (*Family, error) {
@@ -362,6 +363,9 @@ func cmdFamFacts(args []string) int {
 				f.AddTag(ap, d.N, d.A)
 			}
 		}
+		for el, as := range fam.Attrs {
+			f.AddTag(ap, Dec(el), decAttrs(as))
+		}
 	}
 	if err := os.WriteFile(args[1], JSON(f), 0o644); err != nil {
 		fmt.Fprintln(os.Stderr, "famfacts:", err)
@@ -403,3 +407,139 @@ func init() {
 	Commands["famfacts"] = cmdFamFacts
 	Commands["repro"] = cmdRepro
 }
+
+type attrsCase struct {
+	Rid   int    `json:"rid"`
+	El    string `json:"el"`
+	As    []Attr `json:"as"`
+	Res   []Attr `json:"res"`
+	Known bool   `json:"known"`
+	Bare  bool   `json:"bare"`
+}
+
+func attrsEq(a, b []Attr) bool {
+	if len(a) != len(b) {
+		return false
+	}
+	for i := range a {
+		if a[i] != b[i] {
+			return false
+		}
+	}
+	return true
+}
+
+func decAttrs(as []Attr) []Attr {
+	out := make([]Attr, len(as))
+	for i, a := range as {
+		out[i] = Attr{Dec(a.K), Dec(a.V)}
+	}
+	return out
+}
+
+// cmdReplayAttrs: CASE lines of MC_Attrs -> the real code, one tag per case.
+func cmdReplayAttrs(args []string) int {
+	fs := flag.NewFlagSet("replayattrs", flag.ExitOnError)
+	famPath := fs.String("fam", "", "family file")
+	props := fs.String("props", "", "")
+	variants := fs.Int("variants", 2, "")
+	seed := fs.Int64("seed", 1, "")
+	outPath := fs.String("out", "", "")
+	job := fs.String("job", "replayattrs", "")
+	fs.Parse(args)
+	fam, err := LoadFamily(*famPath)
+	if err != nil {
+		fmt.Fprintln(os.Stderr, "replayattrs:", err)
+		return 2
+	}
+	res := &RunResult{Job: *job}
+	rng := rand.New(rand.NewSource(*seed))
+	cache := map[int]*polCacheEntry{}
+	seenV, seenNT := map[string]bool{}, map[string]bool{}
+	pl := splitProps(*props)
+	in := bufio.NewReaderSize(os.Stdin, 1<<20)
+	for {
+		line, err := in.ReadString('\n')
+		if js, ok := parseCaseLine(strings.TrimRight(line, "\r\n")); ok {
+			var c attrsCase
+			if e := json.Unmarshal([]byte(js), &c); e != nil {
+				fmt.Fprintln(os.Stderr, "replayattrs: bad case:", e, js)
+				return 2
+			}
+			replayAttrsCase(fam, &c, res, rng, *variants, pl, cache, seenV, seenNT)
+		}
+		if err != nil {
+			break
+		}
+	}
+	res.Nontrivial = len(seenNT)
+	if *outPath != "" {
+		os.WriteFile(*outPath, JSON(res), 0o644)
+	}
+	fmt.Printf("replayattrs: cases=%d execs=%d dropped=%d divergences=%d violations=%d\n", res.Cases, res.Execs, res.Dropped, res.Divergences, len(res.Violations))
+	return 0
+}
+
+func replayAttrsCase(fam *Family, c *attrsCase, res *RunResult, rng *rand.Rand, variants int, props []string,
+	cache map[int]*polCacheEntry, seenV, seenNT map[string]bool) {
+	res.Cases++
+	pe := cache[c.Rid]
+	recipe := fam.Recipes[c.Rid-1]
+	if pe == nil {
+		pe = &polCacheEntry{real: BuildReal(recipe), model: BuildAP(recipe)}
+		cache[c.Rid] = pe
+		if d := APDiff(pe.model, SnapshotAP(pe.real)); len(d) > 0 {
+			res.diverge("recipe %d: real policy differs from the model: %s", c.Rid, d[0])
+		}
+	}
+	as, want := decAttrs(c.As), decAttrs(c.Res)
+	toks := []Tok{{T: "start", N: Dec(c.El), A: as}}
+	for v := 0; v < variants; v++ {
+		var r *rand.Rand
+		if v > 0 {
+			r = rng
+		}
+		b := Serialise(toks, r)
+		if !ReadsBackAs(b, toks) {
+			res.Dropped++
+			continue
+		}
+		rec, out := RunRecorded(pe.real, b)
+		res.Execs++
+		x := NewExec(recipe, pe.model, pe.real, b, out, rec)
+		if len(want) != len(as) || !attrsEq(want, as) {
+			seenNT[fmt.Sprintf("%d|%s", c.Rid, toks[0])] = true
+		}
+		if len(res.Samples) < 3 && len(as) >= 2 && len(want) > 0 {
+			res.Samples = append(res.Samples, map[string]interface{}{"recipe_index": c.Rid, "input": string(b), "predicted_attrs": want, "observed_output": string(out)})
+		}
+		switch {
+		case rec.Panic != "":
+			res.diverge("panic: %s on %q", rec.Panic, b)
+		case len(rec.Toks) != 1:
+			res.diverge("token count %d on %q", len(rec.Toks), b)
+		default:
+			te := rec.Toks[0]
+			blocked := unsafeName(toks[0].N) && !pe.model.Unsafe
+			expectCall := c.Known && len(as) > 0 && !blocked
+			if te.Called != expectCall {
+				res.diverge("sanitizeAttrs called=%v, spec expects %v on %q", te.Called, expectCall, b)
+			} else if te.Called && !attrsEq(te.After, want) {
+				res.diverge("attributes of %q: real %v spec %v", b, te.After, want)
+			} else if !blocked && c.Known {
+				emit := len(te.Writes) == 1 && (te.Writes[0].Tok.T == "start")
+				wantEmit := len(want) > 0 || (len(as) == 0 || len(want) == 0) && c.Bare
+				if emit != wantEmit {
+					res.diverge("tag emitted=%v, spec expects %v on %q", emit, wantEmit, b)
+				}
+			}
+		}
+		for _, p := range props {
+			if o := Oracles[p]; o != nil {
+				res.violate(o(x), x, res.Job, seenV)
+			}
+		}
+	}
+}
+
+func init() { Commands["replayattrs"] = cmdReplayAttrs }
